@@ -197,10 +197,11 @@ def parse_coverage(out):
 
 # ------------------------------------------------------------------------------------------------------------------
 # trace validation
-_VIOL = re.compile(r'<<"TRACE-VIOLATION", "(\w+)", (\d+), (-?\d+), "([^"]*)">>')
-_DRIFT = re.compile(r'<<"TRACE-DRIFT", "(\w+)", (\d+), (-?\d+), "([^"]*)">>')
-_DONE = re.compile(r'<<"TRACE-DONE", (\d+), (\d+), (\d+)>>')
-_COUNT = re.compile(r'<<"TRACE-COUNT", "(\w+)", (\d+)>>')
+# TLC wraps long tuples over several lines: tolerate any white space between the elements
+_VIOL = re.compile(r'<<\s*"TRACE-VIOLATION",\s*"(\w+)",\s*(\d+),\s*(-?\d+),\s*"([^"]*)"\s*>>')
+_DRIFT = re.compile(r'<<\s*"TRACE-DRIFT",\s*"(\w+)",\s*(\d+),\s*(-?\d+),\s*"([^"]*)"\s*>>')
+_DONE = re.compile(r'<<\s*"TRACE-DONE",\s*(\d+),\s*(\d+),\s*(\d+)\s*>>')
+_COUNT = re.compile(r'<<\s*"TRACE-COUNT",\s*"(\w+)",\s*(\d+)\s*>>')
 
 
 def validate_trace(trace_module, cfg, path, timeout=900, heap="3g"):
@@ -218,6 +219,10 @@ def validate_trace(trace_module, cfg, path, timeout=900, heap="3g"):
     d = _DONE.search(out)
     if d:
         res["lines"] = int(d.group(1))
+        # the trace specification counts its own violations: every one of them must have been parsed from the output
+        if int(d.group(2)) != len(res["violations"]):
+            res["machinery_error"] = "TLC counted %s violations on %s but %d were parsed from its output" % (d.group(2), path, len(res["violations"]))
+            return res
     if r["timed_out"]:
         res["machinery_error"] = "TLC timed out on %s" % path
     elif r["ok"] and d:
